@@ -507,6 +507,21 @@ func (w *World) extractBuiltins(f *Facts) {
 					}
 				}
 			}
+			if !resolved && len(v.Call.Args) >= 1 {
+				// overloadHelper.build() on a table built by a factory (`nameDispatch(kind).build()`)
+				if fc, isCall := stripConv(v.Call.Args[0]).(*ssa.Call); isCall {
+					if tbl, binds := overloadsFromFactory(fc); len(tbl) > 0 {
+						if f.BuiltinBind == nil {
+							f.BuiltinBind = map[string]map[*ssa.FreeVar]ssa.Value{}
+						}
+						for k, fn := range tbl {
+							b.Fns[k] = fn
+							f.BuiltinBind[fmt.Sprintf("%s#%d", local, k)] = binds[k]
+						}
+						resolved = true
+					}
+				}
+			}
 			if !resolved {
 				if cf, bind := closureFromFactory(v); cf != nil {
 					b.Fns[-1] = cf
@@ -712,4 +727,93 @@ func delegatesTo(hf *ssa.Function) (*ssa.Function, map[*ssa.Parameter]ssa.Value)
 		}
 	}
 	return g, pb
+}
+
+// overloadsFromFactory: call is `factory(args...)` where factory returns a map literal from arities to functions
+// (literals capturing the factory's parameters, or plain functions): the table and, per entry, what the captured
+// parameters are bound to at this call.
+func overloadsFromFactory(call *ssa.Call) (map[int]*ssa.Function, map[int]map[*ssa.FreeVar]ssa.Value) {
+	sc := staticCallee(call)
+	if sc == nil || !inRepo(sc) || len(sc.Blocks) == 0 {
+		return nil, nil
+	}
+	var mm *ssa.MakeMap
+	n := 0
+	allInstrs(sc, func(in ssa.Instruction) {
+		if r, ok := in.(*ssa.Return); ok && len(r.Results) == 1 {
+			n++
+			if m, ok := stripConv(r.Results[0]).(*ssa.MakeMap); ok {
+				mm = m
+			}
+		}
+	})
+	if n != 1 || mm == nil {
+		return nil, nil
+	}
+	mt, ok := mm.Type().Underlying().(*types.Map)
+	if !ok {
+		return nil, nil
+	}
+	if b, ok := mt.Key().Underlying().(*types.Basic); !ok || b.Info()&types.IsInteger == 0 {
+		return nil, nil
+	}
+	tbl := map[int]*ssa.Function{}
+	binds := map[int]map[*ssa.FreeVar]ssa.Value{}
+	bad := false
+	for _, rr := range referrers(mm) {
+		mu, ok := rr.(*ssa.MapUpdate)
+		if !ok || mu.Map != ssa.Value(mm) {
+			continue
+		}
+		k, isK := constInt(mu.Key)
+		if !isK {
+			bad = true
+			continue
+		}
+		switch x := stripConv(mu.Value).(type) {
+		case *ssa.Function:
+			tbl[int(k)] = x
+		case *ssa.MakeClosure:
+			fn, _ := x.Fn.(*ssa.Function)
+			if fn == nil {
+				bad = true
+				continue
+			}
+			tbl[int(k)] = fn
+			bind := map[*ssa.FreeVar]ssa.Value{}
+			for i, bv := range x.Bindings {
+				if i >= len(fn.FreeVars) {
+					break
+				}
+				var param *ssa.Parameter
+				switch y := bv.(type) {
+				case *ssa.Parameter:
+					param = y
+				case *ssa.Alloc:
+					for _, st := range storesInto(y) {
+						if st.Addr == ssa.Value(y) {
+							if p, ok := st.Val.(*ssa.Parameter); ok {
+								param = p
+							}
+						}
+					}
+				}
+				if param == nil {
+					continue
+				}
+				for j, p := range sc.Params {
+					if p == param && j < len(call.Call.Args) {
+						bind[fn.FreeVars[i]] = call.Call.Args[j]
+					}
+				}
+			}
+			binds[int(k)] = bind
+		default:
+			bad = true
+		}
+	}
+	if bad {
+		return nil, nil
+	}
+	return tbl, binds
 }
